@@ -476,7 +476,20 @@ def _potdef_cached(depth, has_custom, has_table, max_ranges, leaf_names, allow_s
     nested_pow = st.one_of(
         st.tuples(_positive_leaf(), nested_exp), st.tuples(nested_base, _small_exponent_leaf()),
         st.tuples(nested_base, nested_exp)).map(lambda t: {"k": "mod", "m": "pow", "args": [_single(t[0]), _single(t[1])]})
-    powmod = st.one_of(simple_pow, simple_pow, nested_pow) if depth >= 2 else simple_pow
+    # an argument of pow() is a whole potential definition: ranged and multi-range exponents (piecewise constant ...)
+    def _ranged(t):
+        m1, s1, b1, second = t
+        rgs = [{"m": m1, "s": None if m1 is None else s1, "body": b1}]
+        if second is not None:
+            m2, g2, b2 = second
+            rgs.append({"m": m2, "s": round((0.0 if m1 is None else s1) + g2, 3), "body": b2})
+        return {"ranges": rgs}
+    ranged_exp = st.tuples(st.sampled_from([None, ">", ">="]), st.sampled_from([0.5, 1.0, 1.5, 2.0]), _small_exponent_leaf(),
+                           st.one_of(st.none(), st.tuples(marker, fl(0.2, 6.0, sig=3), _small_exponent_leaf()))).filter(
+        lambda t: t[0] is not None or t[3] is not None).map(_ranged)
+    ranged_pow = st.tuples(_positive_leaf(), ranged_exp).map(
+        lambda t: {"k": "mod", "m": "pow", "args": [_single(t[0]), t[1]]})
+    powmod = st.one_of(simple_pow, simple_pow, ranged_pow, nested_pow) if depth >= 2 else st.one_of(simple_pow, simple_pow, ranged_pow)
     splmod = spline_node()
 
     def make_pd(simple_s):
@@ -516,7 +529,8 @@ def _potdef_cached(depth, has_custom, has_table, max_ranges, leaf_names, allow_s
     return pd_s
 
 
-VARIATIONS = ["copy", "add_range", "add_range", "drop_range", "shift_start", "flip_marker", "other_first_body"]
+VARIATIONS = ["copy", "add_range", "add_range", "drop_range", "shift_start", "flip_marker", "other_first_body",
+              "first_start", "first_start"]
 
 
 def vary(draw, pd, body):
@@ -546,6 +560,14 @@ def vary(draw, pd, body):
             rgs[i]["m"] = ">" if rgs[i]["m"] == ">=" else ">="
     elif how == "other_first_body":
         rgs[0]["body"] = draw(body)
+    elif how == "first_start":
+        # the same first body (and continuation) acting from another separation
+        old = 0.0 if rgs[0]["m"] is None else float(rgs[0]["s"])
+        others = [float(r["s"]) for r in rgs[1:]]
+        new = round(old + draw(st.sampled_from([0.25, 0.5, 1.0, 2.0])), 3)
+        if others and new >= min(others):
+            new = round((old + min(others)) / 2.0, 4)
+        rgs[0]["m"], rgs[0]["s"] = draw(st.sampled_from([">", ">="])), new
     return pd
 
 
